@@ -323,6 +323,7 @@ def correspondence(ctx):
         ctx.notes.append("E3 (compute_inp_hashes) model comparison skipped: the translator did not produce gen/GenHashSkip.v")
     else:
         _e3_inp_guard(ctx)
+        _e5_skip(ctx)
     if getattr(ctx, "json_facts", None) is None:
         ctx.notes.append("E4 (stored hashes) model comparison skipped: the translator did not produce gen/GenHashJson.v")
     else:
@@ -954,6 +955,98 @@ def _e4_json(ctx):
                         witness=descr[i])
 
 
+
+# ---------------------------------------------------------------------------------------------
+# E5 / oracle: the real Executor.try_skip_job on recorded hashes chosen by the harness
+# ---------------------------------------------------------------------------------------------
+
+
+def _skip_runs(ctx):
+    """(configuration, tweak, result) of the real try_skip_job: the recorded hash is the current one or differs
+    from it in a chosen place (first / last / middle byte, everything after byte 8 or 16, out_digest None,
+    the two digests swapped).  Cached: correspondence and oracle look at the same runs."""
+    cached = getattr(ctx, "_c13_skip_runs", None)
+    if cached is not None:
+        return cached
+    from . import c13_exec as X
+    rng = ctx.rng
+    runs = []
+    with X.Runner() as runner:
+        for rep in range(ctx.scale(2, 12)):
+            for tweak in X.SKIP_TWEAKS:
+                s = X.gen_sys(rng)
+                if rep % 2:
+                    s["explained"] = True
+                if rep == 0 and not s["outs"]:
+                    s["outs"].append(["out.txt", b"result".hex(), 0o644])
+                try:
+                    runs.append((s, tweak, X.run_skip(runner, s, tweak), None))
+                except Exception as e:  # noqa: BLE001
+                    runs.append((s, tweak, None, f"{type(e).__name__}: {e}"))
+    ctx._c13_skip_runs = runs
+    return runs
+
+
+def _hexpair(p):
+    return None if p is None else [None if x is None else x.hex() for x in p]
+
+
+def _q_shash(p):
+    return f"(mk_shash {q_str(p[0])} {'None' if p[1] is None else '(Some ' + q_str(p[1]) + ')'})"
+
+
+def _e5_skip(ctx):
+    """The generated tests of try_skip_job (gen/GenHashSkip.v) decide like the real try_skip_job."""
+    checks, meta = [], []
+    for s, tweak, r, err in _skip_runs(ctx):
+        if r is None:
+            continue
+        old, new = _q_shash(r["recorded"]), _q_shash(r["current"])
+        new1 = f"(mk_shash {q_str(r['current'][0])} None)"
+        model = f"(negb (skip_inp_differs {old} {new1}) && negb (skip_out_differs {old} {new}))"
+        checks.append(f"Bool.eqb {model} {'true' if r['skipped'] else 'false'}")
+        meta.append((s, tweak, r))
+    header = HEADER + "From SV Require Import model.HashSkipTypes gen.GenHashSkip.\n"
+    bad = common.run_cases(ctx, "skipdec", header, checks, chunk=100)
+    ctx.traces_validated += len(checks) - len(bad)
+    for i in bad[:3]:
+        s, tweak, r = meta[i]
+        ctx.add_failure("correspondence", "E5:try_skip_job", f"E5:try_skip_job:model-differs:{tweak}",
+                        f"the generated tests of try_skip_job and the real try_skip_job decide differently (recorded hash: "
+                        f"{tweak}; real: {'skipped' if r['skipped'] else 'not skipped'})",
+                        witness={"tweak": tweak, "s": s, "recorded": _hexpair(r["recorded"]), "current": _hexpair(r["current"]),
+                                 "skipped": r["skipped"]})
+
+
+def _oracle_skip(ctx):
+    """Implementation only: try_skip_job skips exactly when both recorded digests are the current ones; a skip
+    records the current hash, a NOSKIP leaves no hash behind."""
+    for s, tweak, r, err in _skip_runs(ctx):
+        ctx.case(("try-skip", tweak, json.dumps(s, sort_keys=True)), True)
+        if r is None:
+            _add_once(ctx, "oracle", "skip:impl-raises", f"oracle:skip:try_skip_job-raises:{tweak}",
+                      f"the real try_skip_job raised: {err}", {"tweak": tweak, "s": s})
+            continue
+        ctx.count("try_skip_" + ("skipped" if r["skipped"] else "noskip"))
+        same = r["recorded"] == r["current"]
+        w = {"tweak": tweak, "s": s, "recorded": _hexpair(r["recorded"]), "current": _hexpair(r["current"]),
+             "skipped": r["skipped"], "state_after": r["state"], "stored_after": _hexpair(r["stored"])}
+        if r["skipped"] and not same:
+            which = "inp" if r["recorded"][0] != r["current"][0] else "out"
+            _add_once(ctx, "oracle", "skip:unsound", f"oracle:skip:skipped-although-{which}-digest-differs:{tweak}",
+                      f"try_skip_job skipped the step although the recorded {which}_digest is not the current one "
+                      f"(recorded hash differs from the current one: {tweak})", w)
+        elif not r["skipped"] and same:
+            _add_once(ctx, "oracle", "skip:spurious", "oracle:skip:noskip-although-both-digests-equal",
+                      "try_skip_job did not skip although both recorded digests are the current ones", w)
+        elif r["skipped"] and r["stored"] != r["current"]:
+            _add_once(ctx, "oracle", "skip:stored", "oracle:skip:skip-does-not-record-the-current-hash",
+                      "after a skip the stored step hash is not the current one", w)
+        elif not r["skipped"] and r["stored"] is not None:
+            _add_once(ctx, "oracle", "skip:stale", "oracle:skip:noskip-keeps-a-stored-hash",
+                      "after a NOSKIP a step hash is still stored", w)
+
+
 # ---------------------------------------------------------------------------------------------
 # oracle on the implementation
 # ---------------------------------------------------------------------------------------------
@@ -1480,6 +1573,7 @@ def _oracle_concurrent_digests(ctx, nfile, nround):
 
 def oracle(ctx):
     _oracle_guard(ctx)
+    _oracle_skip(ctx)
     _oracle_concurrent_digests(ctx, 6, ctx.scale(2, 8))
     _oracle_ambiguity(ctx, ctx.scale(60, 1000))
     _oracle_pairs(ctx, ctx.scale(1300, 20000))
